@@ -100,6 +100,13 @@ CHECKS = {
         'an oracle checks every traversal entry point, treespec_dict, round trip and register_pytree_node.get(dict) against the current mode.',
    note=TB + 'The mode switch is process-wide and documented as not thread-safe; concurrency is out of scope here (C17).',
    design='§7 C13'),
+ 'C18': dict(
+   technique='Coq proof (recognisers as functions of class traits, equal on every trait vector; cache invariant over all histories with address reuse) + model correspondence on a generated class universe + twin-vs-twin oracle',
+   text='Theorems: the repaired Python namedtuple recogniser equals the engine\'s on every trait vector (refuted for the unchanged twin, defect F6); the struct-sequence recognisers agree whenever the n_* counters are not instances of a proper int subclass, and on every class definable in Python; '
+        'for every history of class creations, deaths with address reuse and queries, at every capacity, a cache query returns the classification of the class living at that address now; a doubly failed sort leaves insertion order. '
+        'The run measures the trait vector of ~700 generated classes (every trait toggled, non-classes, real struct sequences) and compares the engine answer and the Python-twin answer each with the model; compares engine and twin for recognition, field listing, sort order of all permutations of half-way failing key sets plus random key lists, one-level flattening of 600 nodes (children, metadata, entries, kind, type, entry type, unflatten); and runs 5000 create/free/query rounds with address reuse by a class of the other kind (reuse observed in every round).',
+   note=TB + 'Cache model assumptions: the weak-reference callback runs before the address is reused (CPython contract) and traits do not change while a class is alive. The one-level unflatten function for dict/defaultdict rebuilds keys in sorted order (the one-level metadata carries no original key order), so that result is compared as a mapping.',
+   design='§7 C18'),
  'C19': dict(
    technique='Coq proof (field partition and keyword-argument reconstruction for all layouts; standard dataclass behaviour as a Section parameter) + model correspondence of the partition + layout-enumeration oracle against the standard library',
    text='Theorems: children are the pytree_node fields in declaration order; every init field is a child or metadata and never both, non-init fields are neither; a non-init pytree-node field is rejected; unflatten(flatten(x)) = x for every layout and every instance the class can produce (non-init fields recomputed by __post_init__); '
